@@ -540,7 +540,7 @@ def matches_in(body, pred):
 # ---------------------------------------------------------------------------------------------------------------------
 # path enumeration: the feasible paths through a (helper-inlined) body under an oracle that decides some conditions
 # ---------------------------------------------------------------------------------------------------------------------
-def paths(body, oracle, limit=400):
+def paths(body, oracle, limit=400, arm_oracle=None):
     """Enumerate control paths through `body`.  oracle(cond_node) → True / False / None (unknown: both branches).
     Each path is (events, exit) with events a list of
         ("assign", lhs_text, rhs_node) | ("assignop", lhs_text, op, rhs_node) | ("call", callee_or_method, node)
@@ -608,6 +608,23 @@ def paths(body, oracle, limit=400):
                 inner = n["scrut"]["args"][0]
                 return ev(inner, evs, lambda v, e2: k(None, e2))
             def after_scrut(v, e2):
+                if arm_oracle is not None:
+                    pick = arm_oracle(n)
+                    if pick is not None:
+                        # pick: list of arm indexes that may be taken, in order (guards decide among them)
+                        for i_ in pick:
+                            a = n["arms"][i_]
+                            if a.get("guard") is not None:
+                                go_ = oracle(a["guard"])
+                                if go_ is False:
+                                    continue
+                                ev(a["body"], e2, k)
+                                if go_ is True:
+                                    return
+                            else:
+                                ev(a["body"], e2, k)
+                                return
+                        return
                 for a in n["arms"]:
                     lit = a["pat"].get("lit", {}).get("v") if a["pat"].get("k") == "plit" else None
                     if v is not None and lit is not None and lit != v:
@@ -626,10 +643,22 @@ def paths(body, oracle, limit=400):
                 finally:
                     ev.ret_k = saved
             return ev(n.get("e"), evs, lambda v, e2: out.append((e2, "ret")))
+        if kind == "loop":
+            # one iteration: `break` (and the end of the iteration) continue behind the loop
+            saved = ev.break_k
+            ev.break_k = ev.break_k + [k]
+            try:
+                return ev(n.get("body"), evs, lambda v, e2: k(None, e2 + [("loop-again", None, n)]))
+            finally:
+                ev.break_k = saved
         if kind == "continue":
+            if ev.break_k:
+                return ev.break_k[-1](None, evs + [("loop-again", None, n)])
             out.append((evs, "continue"))
             return
         if kind == "break":
+            if ev.break_k:
+                return ev.break_k[-1](None, evs)
             out.append((evs, "break"))
             return
         if kind == "assign":
@@ -665,6 +694,7 @@ def paths(body, oracle, limit=400):
             return k(None, e2)
         return runsubs(0, evs)
     ev.ret_k = []
+    ev.break_k = []
     try:
         ev(body, [], lambda v, e2: out.append((e2, "fall")))
     except _Stop:
